@@ -14,7 +14,7 @@ use crate::{
     crypto::hash::HashAlgorithm,
     errors::{bail, ensure, ensure_eq, format_err, InvalidInputSnafu, Result},
     line_writer::LineBreak,
-    normalize_lines::{normalize_lines, NormalizedReader},
+    normalize_lines::normalize_lines,
     packet::{
         Packet, PacketParser, PacketTrait, Signature, SignatureConfig, SignatureType, Subpacket,
         SubpacketData,
@@ -50,13 +50,16 @@ impl CleartextSignedMessage {
         key_pw: &Password,
     ) -> Result<Self>
 where {
-        let mut bytes = text.as_bytes();
-        let signature_text = NormalizedReader::new(&mut bytes, LineBreak::Crlf);
+        let csf_encoded_text = dash_escape(text);
+
+        // The signature is calculated over the text with trailing whitespace removed from each
+        // line, and line endings normalized to CR+LF (this is the form `verify` checks against).
+        let signature_text = signed_text_of(&csf_encoded_text);
         let hash = config.hash_alg;
-        let signature = config.sign(key, key_pw, signature_text)?;
+        let signature = config.sign(key, key_pw, signature_text.as_bytes())?;
 
         Ok(Self {
-            csf_encoded_text: dash_escape(text),
+            csf_encoded_text,
             hashes: vec![hash],
             signatures: vec![signature],
         })
@@ -94,7 +97,8 @@ where {
     where
         F: FnOnce(&str) -> Result<Vec<Signature>>,
     {
-        let signature_text = normalize_lines(text, LineBreak::Crlf);
+        let csf_encoded_text = dash_escape(text);
+        let signature_text = signed_text_of(&csf_encoded_text);
 
         let raw_signatures = signer(&signature_text[..])?;
         let mut hashes = HashSet::new();
@@ -109,7 +113,7 @@ where {
         }
 
         Ok(Self {
-            csf_encoded_text: dash_escape(text),
+            csf_encoded_text,
             hashes: hashes.into_iter().collect(),
             signatures,
         })
@@ -149,9 +153,7 @@ where {
     /// Normalizes the text to the format that was hashed for the signature.
     /// The output is normalized to "\r\n" line endings.
     pub fn signed_text(&self) -> String {
-        let unescaped = dash_unescape_and_trim(&self.csf_encoded_text);
-
-        normalize_lines(&unescaped, LineBreak::Crlf).to_string()
+        signed_text_of(&self.csf_encoded_text)
     }
 
     /// The "cleartext framework"-encoded (i.e. dash-escaped) form of the message.
@@ -308,6 +310,14 @@ fn validate_headers(headers: Headers) -> Result<Vec<HashAlgorithm>> {
         }
     }
     Ok(hashes)
+}
+
+/// The form of a dash-escaped text that signatures are calculated over:
+/// dash escapes and trailing whitespace removed, line endings normalized to "\r\n".
+fn signed_text_of(csf_encoded_text: &str) -> String {
+    let unescaped = dash_unescape_and_trim(csf_encoded_text);
+
+    normalize_lines(&unescaped, LineBreak::Crlf).to_string()
 }
 
 /// Dash escape the given text.
